@@ -4,7 +4,7 @@ From DV Require Import Base.Prelude Model.NameM Model.ZoneTextM.
 From DV Require Import Proofs.ZoneTextBase Proofs.ZoneTextInv Proofs.ZoneTextRespell Proofs.ZoneTextLex
   Proofs.ZoneTextAcc Proofs.ZoneTextRecord Proofs.ZoneTextSweep Proofs.ZoneTextRoundtrip Proofs.ZoneTextNames
   Proofs.ZoneTextParens Proofs.ZoneTextRead Proofs.ZoneTextGenerate Proofs.ZoneTextWf
-  Proofs.ZoneTextRdata Proofs.ZoneTextStruct Proofs.ZoneTextFuel Proofs.ZoneTextTtl.
+  Proofs.ZoneTextRdata Proofs.ZoneTextStruct Proofs.ZoneTextFuel Proofs.ZoneTextTtl Proofs.ZoneTextRrsets.
 From DV Require Import Proofs.NameValid Proofs.NameText.
 From Coq Require Import Permutation.
 Open Scope Z_scope.
@@ -160,6 +160,13 @@ Theorem cname_exclusive_after_load : forall c text o z,
 Proof. exact cname_exclusive_after_load_proof. Qed.
 Print Assumptions cname_exclusive_after_load.
 
+(* The same for dns.zonefile.read_rrsets: in the list of rrsets it returns, no owner name has a
+   CNAME (or RRSIG(CNAME)) rrset together with other data. *)
+Theorem cname_exclusive_rrsets : forall c zo text st,
+  read_rrsets c zo text = Ok st -> rrs_excl st.
+Proof. exact rrsets_cname_exclusive_proof. Qed.
+Print Assumptions cname_exclusive_rrsets.
+
 (* Every owner name of the loaded zone is (the relativization of) a name inside the origin. *)
 Theorem loaded_names_inside : forall c text o z,
   from_text c text = Ok (o, z) ->
@@ -288,6 +295,22 @@ Theorem read_loop_fuel_sufficient : forall c f text s,
   (length text < f)%nat -> read_loop f c s text <> Internal iFuelZ.
 Proof. exact read_loop_fuel_sufficient_proof. Qed.
 Print Assumptions read_loop_fuel_sufficient.
+
+(* ... and a statement that is rejected (CNAME conflict, bad substituted name or rdata, ...) is
+   rejected with exactly the exception its expansion raises - unless an out-of-zone name stopped it. *)
+Theorem respell_generate_errors : forall c s co zo t0 lhs ttlo clso tyt rhs start stop step ttl ty lm rm,
+  corigin s = Some co -> zorigin s = Some zo -> is_absolute co = true ->
+  grange_from_text (tokval t0) = Ok (start, stop, step) ->
+  ttl_given s ttlo ttl ->
+  (forall cv, clso = Some cv -> class_from_text cv = Some (c_class c)) ->
+  type_from_text tyt = Some ty -> class_from_text tyt = None -> ttl_from_text tyt = Lib eBadTTL ->
+  ty <> tSOA ->
+  parse_modify lhs = Ok lm -> parse_modify rhs = Ok rm ->
+  let stmt := generate_line c s (t0 :: TId lhs :: opt_tok ttlo ++ opt_tok clso ++ [TId tyt; TId rhs]) false in
+  let expn := exp_fold (Z.to_nat ((stop - start) / step + 1)) start step c s lhs rhs lm rm ttlo clso tyt in
+  (forall e, stmt = Lib e -> expn = Lib e) /\ (forall e, stmt = Internal e -> expn = Internal e).
+Proof. exact respell_generate_errors_proof. Qed.
+Print Assumptions respell_generate_errors.
 
 (* ---------- non-vacuity: the hypotheses are satisfiable, the model really loads zones ---------- *)
 Definition ex_origin : name := [[101; 120]; []].   (* "ex." *)
